@@ -219,3 +219,27 @@ package native
 //@ ensures[untouched] !result ==> unchanged(dao.kv(d, n.ID)) && unchanged(dao.kvVotes(d, n.ID)) && unchanged(dao.kvReg(d, n.ID))
 //@ ensures[kept] result == old(!c.Registered && (&c.Votes).v == 0)
 //@ ensures[nodelete] !result ==> ncalls(DeleteStorageItem) == 0
+
+// C16: a native method's handler runs only when the executing context has every flag the
+// method's descriptor asks for; before the Aspidochelone hardfork ContractManagement's deploy
+// and update need only the state and notification flags among those.
+//@ prop C16
+//@ import callflag github.com/nspcc-dev/neo-go/pkg/smartcontract/callflag
+//@ import config github.com/nspcc-dev/neo-go/pkg/config
+//@ import interop github.com/nspcc-dev/neo-go/pkg/core/interop
+//@ spec flagsOK(ic *interop.Context, req callflag.CallFlag, name string) bool = ic.VM.flags & req == req || (!interop.hfOn(ic, config.HFAspidochelone) && (name == "deploy" || name == "update") && ic.VM.flags & (req & (callflag.States | callflag.AllowNotify)) == req & (callflag.States | callflag.AllowNotify))
+//@ package github.com/nspcc-dev/neo-go/pkg/config
+//@ func (Hardfork).String
+//@ assumed
+//@ pure
+//@ package github.com/nspcc-dev/neo-go/pkg/core/native
+// The argument-popping callback handed to deferrable handlers (runs after the handler).
+//@ func Call$1
+//@ assumed
+//@ func Call
+//@ may-panic
+//@ opt frame off
+//@ opt stable ic.VM, ic.VM.flags, ic.VM.gasConsumed
+//@ requires ic != nil && ic.VM != nil && ic.VM.gasConsumed != nil
+//@ call funcvalue:HFSpecificMethodAndPrice.Func requires[flags] flagsOK(ic, m.RequiredFlags, m.MD.Name)
+//@ call funcvalue:HFSpecificMethodAndPrice.DeferrableFunc requires[flags] flagsOK(ic, m.RequiredFlags, m.MD.Name)
